@@ -1,9 +1,9 @@
 (* front end = generic scanner (Scan.v) + generic Pratt parser (Pratt.v), glued over the concrete syntax *)
 From Flocq Require Import Core BinarySingleNaN.
 Require Import ZArith NArith Bool List Arith. Import ListNotations.
-Require Import F64 Dec Types Scan Pratt.
+Require Import F64 Dec Types Scan Pratt GenUnicode.
 Open Scope N_scope.
-(* classification instance: ASCII (to be replaced by the tables dumped from Rust's char methods) *)
+(* classification instance: the tables dumped from Rust's char methods (Gen/GenUnicode.v); a_alpha/a_num are their ASCII restriction *)
 Definition a_alpha (c:N) := ((65 <=? c) && (c <=? 90)) || ((97 <=? c) && (c <=? 122)).
 Definition a_num (c:N) := (48 <=? c) && (c <=? 57).
 Definition kw_table (l:list N) : option Scan.kw :=
@@ -11,7 +11,7 @@ Definition kw_table (l:list N) : option Scan.kw :=
   else if leqb l [97;110;100] then Some KAnd else if leqb l [111;114] then Some KOr else if leqb l [120;111;114] then Some KXor
   else if leqb l [110;111;116] then Some KNot else if leqb l [100;105;118] then Some KDiv else if leqb l [109;111;100] then Some KMod else None.
 Definition kw_of (s:list N) : option Scan.kw := kw_table (map lower_ascii s).
-Definition scan_raw (s:list N) := Scan.tokenize a_alpha a_num f64 parse_f64 kw_of s.
+Definition scan_raw (s:list N) := Scan.tokenize u_alpha u_num f64 parse_f64 kw_of s.
 Notation stok := (Scan.token f64).
 Notation ptok := (Pratt.token value (list N)).
 Notation pexpr := (Pratt.expr value (list N)).
